@@ -107,6 +107,18 @@ CLAIMED['C01'] = dict(
          'the oracle\'s tolerance (1e-9) on real signals x all stop rules x steps x interpolation methods x pad widths.',
     note=NOTE + ' Termination of the OUTER loop is not claimed (it is not part of the property); runs that time out are discarded and counted.')
 
+CLAIMED['C03'] = dict(
+    technique='Coq proof over the abstract outer sift loop (any extraction function, so classic and masked alike) and over models of the ensemble / complete-ensemble / second-layer bookkeeping + bit-exact toy-envelope correspondence of all five variants + capped-vs-uncapped and manual-peeling oracle on real numerics',
+    text='Theorems (Prop_C03.v) prove for EVERY per-layer extraction function (classic get_next_imf, or get_next_imf_mask with any frequency/amplitude '
+         'schedule) that component k is that extraction applied to the input minus the first k components, that a cap of k >= 1 never yields more than k '
+         'components and yields exactly the first k of the uncapped run, and that every component is a well-formed N-sample signal; that mask_sift\'s '
+         'effective cap is min(max_imfs, number of explicit frequencies); that ensemble_sift returns exactly cap columns (each the mean over members of '
+         'that column) and is defined iff every member has that many; that complete_ensemble_sift as repaired never exceeds its cap for any oracles '
+         'and peels each later column from the running residual; that sift_second_layer as repaired returns one zero-padded block of exactly k columns '
+         'per first-level component whenever the inner sift respects its cap (proved of the classic sift). The pre-repair code is refuted with '
+         'witnesses (cap k -> k+2 columns; overflow of the second-layer block). Finiteness on floats is an oracle check, not a theorem.',
+    note=NOTE + ' Member decompositions, noise and the mask extraction are oracles here (C07/C08 treat them); ensembles are compared exactly with zero noise amplitude only.')
+
 _PENDING = 'check under construction in this session (model/theorem/correspondence not all in place yet); not claimed until they are'
 NOT_CLAIMED = {('C%02d' % i): _PENDING for i in range(1, 21)}
 for _p in CLAIMED:
